@@ -8,7 +8,7 @@ from ..cfg import NORMAL, Node
 from ..core import Ctx
 from ..flow import ALL, find_path, names_in
 from ..model import AnalysisError, FunctionInfo, dotted, norm_text
-from .common import edge_target, kwarg, reachable_from
+from .common import null_edges, str_consts, edge_target, kwarg, reachable_from
 
 EXPLANATION = (
     "Static analysis of filters.py and the scan APIs: (R1) the operator tables agree and are exhaustive (enum members = handler "
@@ -54,14 +54,49 @@ def enum_members(ctx: Ctx) -> List[str]:
     return sorted(ci.consts.keys())
 
 
-def handler_table(ctx: Ctx) -> Tuple[FunctionInfo, ast.Dict]:
-    f = ctx.fn("filters._build_condition")
+def dict_tables(ctx: Ctx, f: FunctionInfo) -> List[Tuple[str, ast.Dict]]:
+    """Dict literals f works with: assigned to a local name in f, or bound to a module / class level constant that f
+    mentions.  Returns [(name, Dict)]."""
+    out: List[Tuple[str, ast.Dict]] = []
     for n in ast.walk(f.node):
         if isinstance(n, (ast.Assign, ast.AnnAssign)) and isinstance(n.value, ast.Dict):
             tg = n.targets[0] if isinstance(n, ast.Assign) else n.target
-            if isinstance(tg, ast.Name) and "handler" in tg.id:
-                return f, n.value
+            if isinstance(tg, ast.Name):
+                out.append((tg.id, n.value))
+    tables = [f.module.consts] + ([f.cls.consts] if f.cls is not None else [])
+    for n in ast.walk(f.node):
+        nm = n.id if isinstance(n, ast.Name) else (n.attr if isinstance(n, ast.Attribute) else None)
+        if nm is None:
+            continue
+        for t in tables:
+            v = t.get(nm)
+            if isinstance(v, ast.Dict) and not any(v is d for _n, d in out):
+                out.append((nm, v))
+    return out
+
+
+def _is_op(e: Optional[ast.AST]) -> bool:
+    return isinstance(e, ast.Attribute) and dotted(e.value) == "FilterOp"
+
+
+def handler_table(ctx: Ctx) -> Tuple[FunctionInfo, ast.Dict]:
+    f = ctx.fn("filters._build_condition")
+    for _nm, d in dict_tables(ctx, f):
+        if d.keys and all(_is_op(k) for k in d.keys):
+            return f, d
     raise AnalysisError("op_handlers table vanished from _build_condition")
+
+
+def table_name(ctx: Ctx, f: FunctionInfo, d: ast.Dict) -> str:
+    return next(nm for nm, x in dict_tables(ctx, f) if x is d)
+
+
+def parse_table(ctx: Ctx) -> Tuple[FunctionInfo, ast.Dict]:
+    po = ctx.fn("filters._parse_op")
+    for _nm, d in dict_tables(ctx, po):
+        if d.values and all(_is_op(v) for v in d.values):
+            return po, d
+    raise AnalysisError("operator mapping vanished from _parse_op")
 
 
 def r1(ctx: Ctx) -> None:
@@ -71,13 +106,7 @@ def r1(ctx: Ctx) -> None:
     keys = {k.attr for k in d.keys if isinstance(k, ast.Attribute)}
     ctx.ob("C12.R1", f, "handler keys == FilterOp members", None, keys == members,
            f"missing handlers: {sorted(members - keys)}; unknown keys: {sorted(keys - members)}", text="op_handlers")
-    po = ctx.fn("filters._parse_op")
-    mp = None
-    for n in ast.walk(po.node):
-        if isinstance(n, ast.Assign) and isinstance(n.value, ast.Dict):
-            mp = n.value
-    if mp is None:
-        raise AnalysisError("operator mapping vanished from _parse_op")
+    po, mp = parse_table(ctx)
     mapped = {v.attr for v in mp.values if isinstance(v, ast.Attribute)}
     pf = ctx.fn("filters.parse_filter_dict")
     direct = {a.attr for n in ast.walk(pf.node) if isinstance(n, ast.Call) and (dotted(n.func) or "") == "FilterExpression"
@@ -113,14 +142,15 @@ def r1(ctx: Ctx) -> None:
 
 def r2(ctx: Ctx) -> None:
     ctx.rule("C12.R2", "malformed filters raise instead of being reinterpreted", 4)
-    po = ctx.fn("filters._parse_op")
+    po, mp = parse_table(ctx)
+    mname = table_name(ctx, po, mp)
     g = ctx.cfg(po)
     gets = [n for n in g.calls() if isinstance(n.ast, ast.Call) and isinstance(n.ast.func, ast.Attribute) and n.ast.func.attr == "get"
-            and "mapping" in norm_text(n.ast.func.value)]
+            and (dotted(n.ast.func.value) or "").split(".")[-1] == mname]
     for x in gets:
         ctx.ob("C12.R2", po, "mapping.get has no default operator", x, len(x.ast.args) == 1 and not x.ast.keywords,  # type: ignore[union-attr]
                "an unknown operator must not be coerced to equality (audit #25)")
-    subs = [n for n in ast.walk(po.node) if isinstance(n, ast.Subscript) and "mapping" in norm_text(n.value)]
+    subs = [n for n in ast.walk(po.node) if isinstance(n, ast.Subscript) and (dotted(n.value) or "").split(".")[-1] == mname]
     brs = [b for b in g.nodes if b.kind == "branch" and "is None" in b.text]
     ok = False
     for b in brs:
@@ -130,8 +160,9 @@ def r2(ctx: Ctx) -> None:
     ctx.ob("C12.R2", po, "unknown operator -> ValueError", brs[0] if brs else None, ok or bool(subs), "None -> raise (or a KeyError subscript)")
     bc = ctx.fn("filters._build_condition")
     bg = ctx.cfg(bc)
+    hname = table_name(ctx, bc, handler_table(ctx)[1])
     gets = [n for n in bg.calls() if isinstance(n.ast, ast.Call) and isinstance(n.ast.func, ast.Attribute) and n.ast.func.attr == "get"
-            and "handler" in norm_text(n.ast.func.value)]
+            and (dotted(n.ast.func.value) or "").split(".")[-1] == hname]
     for x in gets:
         ctx.ob("C12.R2", bc, "op_handlers.get has no default", x, len(x.ast.args) == 1 and not x.ast.keywords, "")  # type: ignore[union-attr]
     brs = [b for b in bg.nodes if b.kind == "branch" and "is None" in b.text]
@@ -324,8 +355,7 @@ def r4(ctx: Ctx) -> None:
         (isinstance(n.ast.func, ast.Attribute) and n.ast.func.attr == "filter" and "compute_expr" in names_in(n.ast))
         or (kwarg(n.ast, "filters") is not None and "compute_expr" in names_in(kwarg(n.ast, "filters"))))]
     rets = [n for n in g.nodes if n.kind == "return" and n.id in g.reachable()]
-    none_false = {(b.id, d) for b in g.nodes if b.kind == "branch" and norm_text(b.ast) == "compute_expr is not None"
-                  for d, l in g.succ[b.id] if l == "false"}
+    none_false = null_edges(g, "compute_expr")
     for r in rets:
         w = find_path(g, g.entry, [r.id], avoid=[x.id for x in filt], labels=NORMAL, edge_ok=lambda s, d, l: (s, d) not in none_false)
         ctx.ob("C12.R4", rf, "every result is filtered when an expression exists", r, bool(filt) and w is None,
@@ -345,8 +375,7 @@ def r4(ctx: Ctx) -> None:
     ifilt = [n for n in ig.calls() if isinstance(n.ast, ast.Call) and isinstance(n.ast.func, ast.Attribute) and n.ast.func.attr == "filter"
              and "compute_expr" in names_in(n.ast)]
     ys = [n for n in ig.nodes if n.kind == "stmt" and isinstance(n.ast, ast.Expr) and isinstance(n.ast.value, (ast.Yield, ast.YieldFrom))]
-    inone_false = {(b.id, d) for b in ig.nodes if b.kind == "branch" and norm_text(b.ast) == "compute_expr is not None"
-                   for d, l in ig.succ[b.id] if l == "false"}
+    inone_false = null_edges(ig, "compute_expr")
     for y in ys:
         # from the per-batch table construction to the yield, the filter is applied unless compute_expr is None
         starts = [n for n in ig.calls() if n.callee and "from_batches" in n.callee.name]
@@ -368,7 +397,7 @@ def r5(ctx: Ctx) -> None:
     ctx.rule("C12.R5", "between expands to GE lo AND LE hi; the conjunction is an &-fold", 3)
     pf = ctx.fn("filters.parse_filter_dict")
     g = ctx.cfg(pf)
-    brs = [b for b in g.nodes if b.kind == "branch" and "'between'" in b.text]
+    brs = [b for b in g.nodes if b.kind == "branch" and b.ast is not None and "between" in str_consts(ctx, pf, b.ast)]
     ok = False
     detail = ""
     for b in brs:
@@ -388,10 +417,22 @@ def r5(ctx: Ctx) -> None:
     tc = ctx.fn("filters.to_pyarrow_compute_expression")
     folds = [n for n in ast.walk(tc.node) if isinstance(n, ast.Assign) and isinstance(n.value, ast.BinOp)
              and isinstance(n.value.op, ast.BitAnd) and norm_text(n.targets[0]) == norm_text(n.value.left)]
-    ctx.ob("C12.R5", tc, "conjunction is combined = combined & condition", None, bool(folds), "all conditions must hold")
+    # the same fold spelled functools.reduce(operator.and_, <conditions>)
+    rfolds = [n for n in ast.walk(tc.node) if isinstance(n, ast.Call) and (dotted(n.func) or "").split(".")[-1] == "reduce"
+              and n.args and (dotted(n.args[0]) or "") in ("operator.and_", "and_")]
+    ctx.ob("C12.R5", tc, "conjunction is combined = combined & condition", None, bool(folds) or bool(rfolds), "all conditions must hold")
     g2 = ctx.cfg(tc)
     bc = [n for n in g2.calls() if any(t.name == "_build_condition" for t in ctx.eff.callees(tc, n))]
-    loops = [l for l in g2.nodes if l.kind == "loop"]
+
+    def _per_item(b: Node) -> bool:
+        if any(fr.kind == "loop" for fr in b.frames):
+            return True
+        # inside an unfiltered comprehension over the expressions
+        for c in ast.walk(tc.node):
+            if isinstance(c, (ast.ListComp, ast.GeneratorExp)) and any(x is b.ast for x in ast.walk(c.elt)):
+                return len(c.generators) == 1 and not c.generators[0].ifs
+        return False
+
     ctx.ob("C12.R5", tc, "every expression contributes a condition", bc[0] if bc else None,
-           bool(bc) and bool(loops) and all(any(fr.kind == "loop" for fr in b.frames) for b in bc)
+           bool(bc) and all(_per_item(b) for b in bc)
            and not any(isinstance(n.ast, (ast.Break, ast.Continue)) for n in g2.nodes), "no expression is skipped")
